@@ -147,7 +147,11 @@ func genAggItem(r *Rand, tags *[]string, alias string) Item {
 		*tags = append(*tags, "agg:nested-path")
 		return Item{E: &Expr{K: "agg", Name: fn, Path: []string{Pick(r, []string{"net", "tax"}), Pick(r, []string{"amount", "qty"})}}, Alias: alias}
 	}
-	col := Pick(r, []string{"n1", "n2", "id", "z"})
+	col := Pick(r, []string{"n1", "n2", "id", "z", "N1"})
+	if col == "N1" {
+		// a column whose name differs from n1 only by letter case: keys are case-sensitive
+		*tags = append(*tags, "agg:case-variant-column")
+	}
 	if fn == "avg" {
 		col = Pick(r, []string{"n1", "n2", "id"})
 	}
@@ -164,6 +168,7 @@ func genGroupTable(r *Rand, maxRows int) table {
 		m := row.(map[string]any)
 		m["net"] = map[string]any{"amount": Pick(r, numPool[:7]), "qty": Pick(r, numPool[:5])}
 		m["tax"] = map[string]any{"amount": Pick(r, numPool[3:9]), "qty": Pick(r, numPool[2:8])}
+		m["N1"] = Pick(r, numPool[:6])
 		m["g1"] = Pick(r, gk[:2+r.Intn(2)])
 		if useMixed {
 			m["g1"] = Pick(r, mixed)
@@ -205,6 +210,7 @@ func genC03(r *Rand, tier string) []Case {
 			tags = append(tags, "where")
 		}
 		grouped := r.Chance(70)
+		focus := false
 		if grouped {
 			q.Group = [][]string{{"g1"}, {"g2"}, {"g1", "g2"}, {"s1"}, {"n1"}, {"b1"}, {"g1", "s1", "b1"}}[r.Intn(7)]
 			tags = append(tags, fmt.Sprintf("groupcols:%d", len(q.Group)))
@@ -222,10 +228,39 @@ func genC03(r *Rand, tier string) []Case {
 			if r.Chance(40) {
 				q.Having = genHaving(r, &tags)
 			}
+			if r.Chance(15) {
+				// DISTINCT and a LIMIT window over the group rows (no ORDER BY): the window applies after the
+				// duplicates are gone, so every group must have been formed and projected
+				q.Distinct = true
+				q.Limit = intp(1 + r.Intn(3))
+				if r.Bool() {
+					q.Offset = intp(r.Intn(3))
+				}
+				tags = append(tags, "group-distinct-limit")
+				if r.Bool() {
+					// many groups, few distinct projections: the window must be cut after the duplicates are removed
+					q.Group = []string{Pick(r, []string{"n1", "s1", "n2"})}
+					q.Items = nil
+					q.Having = nil
+					focus = true
+					tags = append(tags, "group-distinct-limit-counts")
+				}
+			}
 		} else {
 			tags = append(tags, "whole-table")
 		}
 		k := 1 + r.Intn(4)
+		if focus {
+			k = 0
+			q.Items = append(q.Items, Item{E: &Expr{K: "agg", Name: "count", Star: true}, Alias: "a0"})
+		}
+		if !grouped && r.Chance(10) {
+			// the same function over two columns whose names differ only by letter case
+			fn := Pick(r, []string{"sum", "min", "max", "avg", "count"})
+			q.Items = append(q.Items, Item{E: &Expr{K: "agg", Name: fn, Path: []string{"N1"}}, Alias: "up"},
+				Item{E: &Expr{K: "agg", Name: fn, Path: []string{"n1"}}, Alias: "low"})
+			tags = append(tags, "agg:same-fn-case-variant-columns")
+		}
 		for j := 0; j < k; j++ {
 			q.Items = append(q.Items, genAggItem(r, &tags, fmt.Sprintf("a%d", j)))
 		}
@@ -342,6 +377,33 @@ func genC05(r *Rand, tier string) []Case {
 			if q.Order[0].Path[0] == "s1" {
 				q.Order[0].Path = []string{"s"}
 			}
+		}
+		if r.Chance(10) {
+			// a window without ORDER BY over rows whose projection needs a whole-table aggregate: the aggregate is over
+			// every row that passed WHERE, not over the rows of the window
+			agg := &Expr{K: "agg", Name: Pick(r, []string{"sum", "avg", "max", "count"}), Path: []string{"n1"}}
+			var e *Expr
+			if r.Bool() {
+				e = Bin("-", Bin("*", Col("n1"), Num(100)), agg)
+			} else {
+				e = &Expr{K: "case", Whens: [][2]*Expr{{Cmp(">", Col("n1"), agg), Num(1)}}, Else: Num(0)}
+			}
+			q.Order = nil
+			q.Items = []Item{{E: Col("id")}, {E: e, Alias: "rel"}}
+			q.Limit = intp(1 + r.Intn(4))
+			q.Offset = intp(r.Intn(3))
+			tags = append(tags, "window-over-nested-aggregate")
+		} else if r.Chance(12) {
+			// the prepared query is executed twice (first over emptied rows): nothing of the first window may survive
+			tags = append(tags, "re-executed")
+			out = append(out, mkCase(map[string]any{"t": t.rows}, q, tags, len(t.rows) >= 2))
+			c := out[len(out)-1]
+			in := c.Input.(engIn)
+			in.Reexec = true
+			c.Input = in
+			c.Key += "|reexec"
+			out[len(out)-1] = c
+			continue
 		}
 		add(t, q, tags)
 	}
